@@ -594,7 +594,9 @@ class ReverseWeighting(WeightingModel):
             self.subscorer = subscorer
 
         def supports_block_quality(self):
-            return self.subscorer.supports_block_quality()
+            # Negating the wrapped scorer's upper bounds gives lower bounds,
+            # which are useless (and harmful) for quality optimizations
+            return False
 
         def score(self, matcher):
             return 0 - self.subscorer.score(matcher)
